@@ -423,7 +423,7 @@ class CrystalMap:
     def phase_id(self, value: Union[np.ndarray, int]):
         """Set phase ID of points in data."""
         self._phase_id[self.is_in_data] = value
-        if value == -1 and "not_indexed" not in self.phases.names:
+        if np.any(np.asarray(value) == -1) and "not_indexed" not in self.phases.names:
             self.phases.add_not_indexed()
 
     @property
